@@ -95,7 +95,7 @@ def run(chk):
     if chk.tier == 'quick' and len(sample) > 150:
         must = [x for x in sample if '] ' in x or '9007' in x or '1.0' in x or 'NOT' in x[:14]]       # every observation-level compound, the big-integer and negated leaves
         rest = [x for x in sample if x not in must]; chk.rng.shuffle(rest)
-        sample = must + rest[:max(0, 170 - len(must))]
+        sample = must + rest[:max(20, 170 - len(must))]          # at least 20 of the other patterns, whatever the number of compounds
     eq = {}
 
     def pair_cases():
